@@ -15,6 +15,9 @@ readme fixes are *not generated*:
 bundle with a member its port lacks - `extra_member`; a connected signal replaced under its own
 name - `orphan_replaced`.)
 """
+import random
+
+from .choices import hash64
 from . import refmodel
 from .refmodel import DIFF
 
@@ -574,6 +577,13 @@ class Gen:
                 members[sname] = self.gen_scalar(mc, w, depth + 1, me, allow_pr=cfg["portrefs"] and allow_pr, allow_nc=False)
             for sname, (sub, _f) in b["subs"].items():
                 members[sname] = self.gen_bundle_val(mc, ("B", sub), depth + 1, me, allow_pr=False)
+            # the members are written in any order, not the declaration's (the order is drawn off the
+            # tape, so that programs generated before this was added stay as they were otherwise)
+            oseed = hash64(ch.seed, "anorder", mc.mid, str(me), depth)
+            if oseed % 2 and len(members) > 1:
+                keys = list(members)
+                random.Random(oseed).shuffle(keys)
+                members = {k_: members[k_] for k_ in keys}
             if ch.chance(1, 2):
                 mc.nmemo += 1
                 return ["an", mc.nmemo, members]
